@@ -5,7 +5,9 @@ import AlphaG.Driver.C04
 import AlphaG.Driver.C05
 import AlphaG.Driver.C06
 import AlphaG.Driver.C07
+import AlphaG.Driver.C13
 import AlphaG.Driver.C16
+import AlphaG.Driver.C17
 import AlphaG.Driver.C18
 import AlphaG.Driver.C19
 /-
@@ -19,7 +21,9 @@ def main : IO Unit := Driver.run [
   AlphaG.Driver.C05.handle,
   AlphaG.Driver.C06.handle,
   AlphaG.Driver.C07.handle,
+  AlphaG.Driver.C13.handle,
   AlphaG.Driver.C16.handle,
+  AlphaG.Driver.C17.handle,
   AlphaG.Driver.C18.handle,
   AlphaG.Driver.C19.handle
 ]
